@@ -274,3 +274,4 @@ func uniq(s []string) []string {
 	}
 	return out
 }
+
